@@ -380,3 +380,60 @@ Proof.
     + rewrite zsum_map_mul_l, Hv. lia.
     + intros j'. rewrite scov_two. fold (d j) (d j'). lia.
 Qed.
+
+(* ---------- the boolean checkers accept the closed forms (no alarm of the checker on the model) ---------- *)
+Section Accept.
+Context {A : Type}.
+Variables (zero nanc : A) (aeqb : A -> A -> bool).
+Hypothesis aeqb_refl : forall a, aeqb a a = true.
+
+Fixpoint last_opt (l : list A) : option A :=
+  match l with [] => None | x :: r => match last_opt r with Some v => Some v | None => Some x end end.
+
+Lemma stored_last_occ crow (drow : list A) ch : stored_last crow drow ch = last_opt (occ crow drow ch).
+Proof.
+  revert drow; induction crow as [|c cr IH]; intros [|d dr]; try reflexivity.
+  cbn [stored_last occ]. rewrite IH. destruct (c =? ch); [reflexivity|].
+  destruct (last_opt (occ cr dr ch)); reflexivity.
+Qed.
+
+Lemma last_opt_In l v : last_opt l = Some v -> In v l.
+Proof.
+  induction l as [|x r IH]; [discriminate|]. cbn [last_opt]. destruct (last_opt r) as [u|].
+  - intros H; injection H as <-. right. now apply IH.
+  - intros H; injection H as <-. now left.
+Qed.
+
+Lemma last_opt_some x r : exists v, last_opt (x :: r) = Some v.
+Proof. cbn [last_opt]. destruct (last_opt r) as [u|]; eauto. Qed.
+
+Lemma cell_ok_dense crow (drow : list A) ch : cell_ok zero aeqb crow drow ch (dense_cell zero crow drow ch) = true.
+Proof.
+  unfold cell_ok, dense_cell. rewrite stored_last_occ. destruct (occ crow drow ch) as [|x [|y r]].
+  - apply aeqb_refl.
+  - apply aeqb_refl.
+  - destruct (last_opt_some x (y :: r)) as (v & Hv). rewrite Hv.
+    apply existsb_exists. exists v. split; [now apply last_opt_In|apply aeqb_refl].
+Qed.
+
+Lemma row_ok_dense crow (drow : list A) chans : row_ok zero aeqb crow drow chans (dense_row zero crow drow chans) = true.
+Proof.
+  unfold dense_row. induction chans as [|ch r IH]; [reflexivity|]. cbn [map row_ok]. now rewrite cell_ok_dense, IH.
+Qed.
+
+Theorem fs_spec_b_accepts_dense (data : list (list A)) cols chans :
+  length data = length cols -> fs_spec_b zero aeqb data cols chans (dense zero data cols chans) = true.
+Proof.
+  revert cols; induction data as [|d dr IH]; intros [|c cr] H; cbn [length] in H; try lia; [reflexivity|].
+  cbn [dense fs_spec_b]. rewrite row_ok_dense, IH by lia. reflexivity.
+Qed.
+
+Theorem dense_spec_b_accepts_closed (st : @store A) n_loc stpl ids chans :
+  dense_spec_b zero aeqb st n_loc stpl ids chans (get_dense_closed_form zero nanc st n_loc stpl ids chans) = true.
+Proof.
+  unfold get_dense_closed_form. induction ids as [|sp r IH]; [reflexivity|]. cbn [map dense_spec_b]. rewrite IH.
+  unfold closed_row at 1 2. unfold dense_row at 1. rewrite map_length, Nat.eqb_refl.
+  unfold filled_row, colrow_of. destruct (stored_row_f st sp) as [drow|]; [|reflexivity].
+  destruct (col_row_f st n_loc stpl sp) as [crow|]; [|reflexivity]. now rewrite row_ok_dense.
+Qed.
+End Accept.
